@@ -29,6 +29,7 @@ var Prefixes = map[string][]string{
 	"matured":     {"c1:vupdate(s1)+vupdate(h1)", "c1:dadd(s1)+dadd2(s1)", "c1:", "c1:dsub(s1)+vwithdraw(s1)", "s1:", "c1:", "c1:", "c1:"},
 	"expelled":    {"c1:vupdate(s1)+vupdate(h1)", "c1:dadd(s1)+dadd2(s1)", "c1:", "c1:!dsign(s1)"},
 	"newval":      {"c1:vcreate(n1)", "c1:", "c1:von(n1)"},
+	"tinyhouse":   {"c1:vcreate(z1)", "c1:", "c1:", "c1:"}, // z1 exists with Token 0.5 unit, Stake 0 (not part of PrefixOrder; used by C05)
 }
 
 var PrefixOrder = []string{"genesis", "pending-dlg", "delegated", "withdrawing", "matured", "expelled", "newval"}
